@@ -871,6 +871,146 @@ pub struct Shape {
     pub allow_fold: bool,
     /// ELF files present on disk that MMAP2 records may name (empty = offset-based attribution only)
     pub files: Vec<ElfDecl>,
+    /// generate `/tmp/perf-<pid>.map` files for some pids and call-chain addresses in / around their functions
+    pub jit: bool,
+}
+
+/// Names for perf-map functions: every branch of `JitCategoryManager::classify_jit_symbol` and of
+/// `handle_for_js_name` (JS prefixes of the table, non-JS prefixes, baseline interpreter / stub / BlinterpOp,
+/// IonIC with and without a function, V8 wasm names, self-hosted names, JSC `[Call …]` names, plain names).
+pub const JIT_NAMES: [&str; 46] = [
+    "py::f",
+    "py::g (file.py:12)",
+    "py::",
+    "JS:~foo app.js:1:2",
+    "JS:^bar",
+    "JS:+m",
+    "JS:*t",
+    "JS:?q",
+    "Script:~top",
+    "Builtin:ArrayPush",
+    "BytecodeHandler:Ldar",
+    "Interpreter: run (a.js:3:4)",
+    "BaselineThunk: x",
+    "Baseline: b (a.js:1:1)",
+    "PolymorphicCallStubBaseline: p",
+    "PolymorphicAccessStubBaseline: pa",
+    "Ion: ionf (a.js:9:9)",
+    "Wasm: w",
+    "BaselineIC: ic",
+    "IC: ic2",
+    "Trampoline: tr",
+    "WasmTrampoline: wt",
+    "VMWrapper: vm",
+    "Baseline JIT code for jscf",
+    "DFG JIT code for DFG: dfgf",
+    "FTL B3 code for FTL: ftlf",
+    "LLInt: ll",
+    "BaselineInterpreter",
+    "BlinterpOp: JumpTarget",
+    "BaselineInterpreter: stubbed (a.js:5:5)",
+    "BaselineInterpreter: map (self-hosted:12:3)",
+    "IonIC: SetElem : AccessibleButton (main.js:3560:25)",
+    "IonIC: GetProp",
+    "JS:wasm-function[5206]-5206-liftoff",
+    "JS:SceneBuilder._pushLayer-10063-turbofan",
+    "JS:noindex-liftoff",
+    "JS:plain",
+    "Ion: forEach[Call (StrictMode)]",
+    "Interpreter: diffProps[Call (StrictMode)] /home/index.js:123:12",
+    "Ion: mk[Construct] a.js:1:1",
+    "Ion: br[Call",
+    "Ion: map (self-hosted:12:3)",
+    "Ion: valueIsFalsey",
+    "Baseline: xvalueIsTruthy",
+    "plain_native_jit",
+    "run_wasm_sm.js line 41 > WebAssembly.Module:916249: Function Element.updateChild",
+];
+
+/// Lines that `process_perf_map_line` rejects, and unusual spellings it accepts.
+pub const PERF_MAP_ODD_LINES: [&str; 16] = [
+    "",
+    "garbage",
+    "5000f000 20",
+    "5000f000 20 ",
+    "5000f000  20 py::doublespace",
+    "G000f000 20 py::badhex",
+    "5000f000 2z py::badlen",
+    "-5000f000 20 py::minus",
+    " 5000f000 20 py::leadingspace",
+    "10000000000000000 20 py::toolong",
+    "0x5000f000 0x20 py::with0x",
+    "0x0x5000f040 0x0x20 py::twice0x",
+    "+5000f080 +20 py::plus",
+    "5000F0C0 2A py::UPPER",
+    "5000f100 20 py::name with  spaces ",
+    "0x 20 py::empty-after-0x",
+];
+
+/// A perf map file: lines in file order, and the address ranges `(start, end)` its well-formed lines
+/// declare (for aiming call-chain addresses; the harness does not interpret the file any further).
+pub fn gen_perf_map(rng: &mut Rng) -> (Vec<PerfMapLine>, Vec<(u64, u64)>) {
+    let mut lines = Vec::new();
+    let mut ranges: Vec<(u64, u64)> = Vec::new();
+    let mut cursor = 0x5000_0000u64 + 0x100 * rng.below(16);
+    let n = rng.range(1, 10);
+    let name = |rng: &mut Rng| -> String {
+        // JS-classified names are the interesting ones: bias towards them
+        match rng.below(4) {
+            0 => "py::f".to_string(),
+            _ => rng.pick(&JIT_NAMES).to_string(),
+        }
+    };
+    let len_of = |rng: &mut Rng| -> u64 { *rng.pick(&[1u64, 2, 0x10, 0x10, 0x40, 0x123, 0x1000]) };
+    for _ in 0..n {
+        match rng.below(100) {
+            0..=54 => {
+                let len = len_of(rng);
+                lines.push(PerfMapLine::Fn { addr: cursor, len, name: name(rng) });
+                ranges.push((cursor, cursor + len));
+                cursor += len + *rng.pick(&[0u64, 0, 1, 0x10]);
+            }
+            55..=68 if !ranges.is_empty() => {
+                // overlap an earlier function: same start, inside, across its end, containing it
+                let (s, e) = ranges[rng.below(ranges.len() as u64) as usize];
+                let l0 = (e - s).max(1);
+                let (addr, len) = match rng.below(5) {
+                    0 => (s, len_of(rng)),
+                    1 => (s + l0 / 2, len_of(rng)),
+                    2 => (e - 1, 2),
+                    3 => (s.saturating_sub(1), l0 + 2),
+                    _ => (s + 1, l0.saturating_sub(2)),
+                };
+                lines.push(PerfMapLine::Fn { addr, len, name: name(rng) });
+                ranges.push((addr, addr + len));
+            }
+            69..=75 => {
+                // zero-length function: at a fresh address or at the start / inside / end of an earlier one
+                let addr = if ranges.is_empty() || rng.chance(1, 3) {
+                    cursor
+                } else {
+                    let (s, e) = ranges[rng.below(ranges.len() as u64) as usize];
+                    *rng.pick(&[s, (s + e) / 2, e])
+                };
+                lines.push(PerfMapLine::Fn { addr, len: 0, name: name(rng) });
+                ranges.push((addr, addr));
+            }
+            76..=85 => {
+                // inside the address grid of the regular mappings (a regular mapping wins where both cover)
+                let addr = 0x40_0000 + rng.below(0x48000);
+                let len = len_of(rng);
+                lines.push(PerfMapLine::Fn { addr, len, name: name(rng) });
+                ranges.push((addr, addr + len));
+            }
+            _ => {
+                let l = rng.pick(&PERF_MAP_ODD_LINES).to_string();
+                // the spellings the parser accepts declare functions in this range
+                ranges.push((0x5000_f000, 0x5000_f120));
+                lines.push(PerfMapLine::Raw(l));
+            }
+        }
+    }
+    (lines, ranges)
 }
 
 struct Sim {
@@ -905,6 +1045,19 @@ pub fn gen_history(rng: &mut Rng, shape: &Shape) -> History {
     let base_t = 1_000_000 * rng.range(1, 50);
     let mut sim = Sim { live: BTreeMap::new(), maps: BTreeMap::new(), t: base_t, next_new_pid: 300 };
     let pid_pool: Vec<u32> = vec![100, 101, 200, 250];
+    // perf map files (not with --reuse-threads: the JIT function recycler is not modelled)
+    let mut jit: BTreeMap<u32, Vec<(u64, u64)>> = BTreeMap::new();
+    if shape.jit && !h.reuse && rng.chance(3, 5) {
+        for pid in [100u32, 101, 200, 250, 301, 302] {
+            if rng.chance(1, 3) {
+                let (lines, ranges) = gen_perf_map(rng);
+                for l in lines {
+                    h.perf_maps.push((pid, l));
+                }
+                jit.insert(pid, ranges);
+            }
+        }
+    }
     let len = if rng.chance(1, 8) { rng.range(shape.max_len / 2, shape.max_len) } else { rng.range(3, (shape.max_len / 4).max(6)) };
     // time step: mostly a few µs..ms, with frequent zero steps (ties)
     let step = |rng: &mut Rng| -> u64 {
@@ -930,7 +1083,22 @@ pub fn gen_history(rng: &mut Rng, shape: &Shape) -> History {
             return (kernel_mode, ip, c);
         }
         let maps = sim.maps.get(&pid).cloned().unwrap_or_default();
+        let jit_ranges = jit.get(&pid).cloned().unwrap_or_default();
         let addr = |rng: &mut Rng| -> u64 {
+            if !jit_ranges.is_empty() && rng.chance(1, 2) {
+                // in / around a perf-map function: first and last byte, one past the end (as a return address
+                // it is looked up at end - 1, inside), one before the start
+                let (s, e) = jit_ranges[rng.below(jit_ranges.len() as u64) as usize];
+                return match rng.below(8) {
+                    0 => s,
+                    1 => s + 1,
+                    2 => e.saturating_sub(1),
+                    3 => e,
+                    4 => e + 1,
+                    5 => s.saturating_sub(1),
+                    _ => s + rng.below((e - s).max(1)),
+                };
+            }
             if !maps.is_empty() && rng.chance(4, 5) {
                 let (s, e) = maps[rng.below(maps.len() as u64) as usize];
                 match rng.below(8) {
